@@ -51,6 +51,7 @@ def corpus_check(ctx, prop: str, oracle=None, *, stream: str = "base", nontrivia
     tier, seed = ctx["tier"], ctx["seed"]
     cases = corpus.get(stream, corpus.base_size(tier), seed, tier)
     dis = corpus.back_disagreements(cases, prop)
+    dis += corpus.front_disagreements(cases, prop)
     l1_items = corpus.get_l1(seed, tier) if use_l1 else []
     dis += corpus.l1_disagreements(l1_items, prop)
     violations = []
@@ -74,6 +75,12 @@ def corpus_check(ctx, prop: str, oracle=None, *, stream: str = "base", nontrivia
         if nontrivial is None or nontrivial(c):
             nt += 1
     crashed = [c for c in cases if c.answer.get("exc")]
+    import frontcmp
+    fstat: dict[str, int] = {}
+    for c in cases:
+        if c.job.get("view"):
+            st = frontcmp.compare(c.answer, c.front)["status"]
+            fstat[st] = fstat.get(st, 0) + 1
     sample = []
     for c in cases[:2]:
         stubs = corpus.impl_files(c)
@@ -91,6 +98,7 @@ def corpus_check(ctx, prop: str, oracle=None, *, stream: str = "base", nontrivia
         "disagreements": dis,
         "violations": violations,
         "stats": {"packages": len(cases), "l1_api_objects": len(l1_items), "declarations_checked": checked, "runs_aborted": len(crashed),
+                  "analyzer_model_vs_implementation_on_the_whole_api_object": fstat,
                   "styles": {s: sum(1 for c in cases if c.pkg.style == s) for s in corpus.STYLES}},
         "cases": cases,
     }
